@@ -372,6 +372,30 @@ def Reachable (c : Cfg) (s : St) : Prop := ∃ as, run c init as = some s
 `CallContext` of the connection wraps a clone of the one connection token. -/
 def seenByHandlers (s : St) : Bool := s.token
 
+/-! ### the handshake's path check (`normalize_path`, `WebSocketPathValidator::on_request`) and what the
+built-in accept loops report through `on_error` -/
+
+/-- `str::trim_end_matches('/')` -/
+def trimSlashes (p : List Char) : List Char := (p.reverse.dropWhile (· == '/')).reverse
+
+/-- `normalize_path`, branch by branch. -/
+def normalizePath (p : List Char) : List Char :=
+  if p = [] ∨ p = ['/'] then ['/']
+  else if p.head? = some '/' then trimSlashes p
+  else '/' :: trimSlashes p
+
+/-- `WebSocketPathValidator::on_request`: the upgrade is accepted iff the request's URI path equals the
+normalised configured path (the request path itself is compared verbatim). -/
+def pathAccepted (configured requested : List Char) : Bool := requested == normalizePath configured
+
+/-- Does `reader_task` return `Err` for this cause? (`accept_and_serve` then reports one
+`ConnectionError::Connection`, unless the writer also failed, in which case it is still one report:
+`reader_result.and(writer_result)` is a single `Result`.) -/
+def Cause.isError : Cause → Bool
+  | .close => false
+  | .eof => false
+  | _ => true
+
 /-! ### expected shapes -/
 
 def connects (k : Nat) : List Ev := (List.range k).map .connect
